@@ -139,7 +139,7 @@ def build_pool(seed):
                       'solution': {'type': 'dc', 'precision': 3, 'voltages': [{'name': 'R1'}, {'name': 'nope'}, {'name': 'R2', 'reverse': True}],
                                    'currents': [{'name': 'nope'}, {'name': 'R1'}], 'powers': [{'name': 'R2'}, {'name': 'nope'}]}}
     pool['sdesc2'] = copy.deepcopy(pool['sdesc2'])
-    pool['wlist0'] = [0.0, 1.0, 50.0]
+    pool['wlist0'] = [50.0, 0.0, 1.0]            # deliberately not ascending: a callee that sorts its argument changes the caller's list
     pool['tgrid'] = np.linspace(0.0, 0.5, 40)
     return pool
 
